@@ -25,7 +25,12 @@ def main():
     ap.add_argument("--seed", type=int, default=1)
     ap.add_argument("--files", default="backend_inotify.go,shared.go,fsnotify.go")
     ap.add_argument("--jobs", type=int, default=9)
+    ap.add_argument("--kq", action="store_true", help="kqueue backend: compile for freebsd, no Linux suite, checks C15 C17 C18")
     a = ap.parse_args()
+    global CHECKS
+    if a.kq:
+        a.files = "backend_kqueue.go"
+        CHECKS = ["C15", "C17", "C18"]
     S = a.scratch
     repo, harness, out = S + "/repo", S + "/harness", S + "/out"
     if not os.path.exists(repo):
@@ -57,7 +62,7 @@ def main():
         rec = dict(file=f, idx=idx, line=int(line), desc=desc)
         diff = sh(["git", "-C", repo, "diff", "--", f]).stdout
         rec["diff"] = "\n".join(l for l in diff.splitlines() if l[:1] in "+-" and not l.startswith(("+++", "---")))[:600]
-        b = sh(["go", "build", "./..."], cwd=repo, env=ENV)
+        b = sh(["go", "build", "./..."], cwd=repo, env=dict(ENV, GOOS="freebsd") if a.kq else ENV)
         if b.returncode != 0:
             rec["status"] = "uncompilable"
         else:
@@ -72,7 +77,7 @@ def main():
                     if e.get("Test") and e.get("Action") in ("pass", "fail", "skip"):
                         res[e["Package"] + "::" + e["Test"]] = e["Action"]
                 return sorted(t for t in want if res.get(t) != "pass")
-            bad = suite()
+            bad = [] if a.kq else suite()
             if bad:
                 bad2 = suite()  # load flakes: must fail twice
                 bad = [t for t in bad if t in bad2]
